@@ -370,11 +370,23 @@ Proof.
   apply sim_emit_token_body. exact IH.
 Qed.
 
+Lemma sim_collecting {A} (m m' : M A) k k' : SimM m m' -> SimM k k' -> SimM (collecting m k) (collecting m' k').
+Proof.
+  intros Hm Hk c c' H. unfold collecting. specialize (Hm c c' H).
+  destruct (m c) as [a c1|ds c1|f], (m' c') as [a' c1'|ds' c1'|f']; cbn in Hm; try contradiction.
+  - destruct Hm as [_ He]. exact (Hk c1 c1' He).
+  - destruct Hm as [-> He]. specialize (Hk c1 c1' He).
+    destruct (k c1) as [u d|ds2 d|f2], (k' c1') as [u' d'|ds2' d'|f2']; cbn in Hk |- *; try contradiction.
+    + destruct Hk as [_ Hk]. split; [reflexivity|exact Hk].
+    + destruct Hk as [-> Hk]. split; [reflexivity|exact Hk].
+    + exact Hk.
+  - cbn. exact Hm.
+Qed.
 Lemma sim_register_segment_symbols l : SimM (register_segment_symbols l) (register_segment_symbols l).
 Proof.
   induction l as [|[n s] r IH]; cbn [register_segment_symbols]; [apply sim_ret|].
-  apply sim_get_bind; intros c c' H. rewrite (symbol_core _ _ _ _ _ H). apply sim_bind; [sm|intro].
-  apply sim_get_bind; intros d d' Hd. rewrite (symbol_core _ _ _ _ _ Hd). apply sim_bind; [sm|intro]. exact IH.
+  apply sim_collecting; [apply sim_get_bind; intros c c' H; rewrite (symbol_core _ _ _ _ _ H); sm|].
+  apply sim_collecting; [apply sim_get_bind; intros d d' Hd; rewrite (symbol_core _ _ _ _ _ Hd); sm|exact IH].
 Qed.
 
 Definition pass_rel (x y : pass_out) : Prop :=
@@ -393,7 +405,7 @@ Proof.
   { unfold after_pass. apply sim_get_bind; intros d d' Hd. same_core Hd.
     match goal with H1 : segments d = segments d' |- _ => rewrite H1 end. apply sim_register_segment_symbols. }
   destruct (emit_tokens_with (emit_token fuel) toks [] c), (emit_tokens_with (emit_token fuel) toks [] c'); cbn in H1; try contradiction.
-  - destruct H1 as [_ He]. specialize (AP _ _ He). destruct (after_pass c0), (after_pass c1); cbn in *; try contradiction; intuition.
-  - destruct H1 as [-> He]. specialize (AP _ _ He). destruct (after_pass c0), (after_pass c1); cbn in *; try contradiction; intuition.
+  - destruct H1 as [_ He]. specialize (AP _ _ He). destruct (after_pass c0), (after_pass c1); cbn in *; try contradiction; intuition; subst; reflexivity.
+  - destruct H1 as [-> He]. specialize (AP _ _ He). destruct (after_pass c0), (after_pass c1); cbn in *; try contradiction; intuition; subst; reflexivity.
   - cbn. exact H1.
 Qed.
